@@ -17,7 +17,8 @@
 EXTENDS Naturals, Sequences, FiniteSets, TLC, Json
 
 CONSTANTS Modes,        \* subset of {"compress", "decompress"}
-          OptSets,      \* set of option sets, each a subset of {"k", "c", "t", "f"}
+          OptSets,      \* set of option sets, each a subset of {"k", "c", "t", "f", "v"} ("v": informational
+                        \* messages on standard error only - no effect on what happens to the operands or on the status)
           Kinds,        \* operand kinds: "regular", "hardlink", "symlink", "directory", "missing", "fifo"
           Suffixes,     \* "", ".bz2", ".tbz", ".tbz2", ".tz2", ".tar", ".bz2x"
           Existing,     \* what already sits at the output name: "none", "file", "directory"
